@@ -182,6 +182,14 @@ def run_numeric(case):
     shape = out.shape if hasattr(out, "shape") else (len(out),)
     if shape[0] != len(items) or (W is not None and (len(shape) < 2 or shape[1] != W)):
         v.append(viol("shape:%s" % spec.name, "transform of %d items has shape %s, fitted width %s (cfg %s)" % (len(items), shape, W, cfg)))
+    elif spec.name == "histogram":
+        # column meaning: column j counts the values lying in the fitted interval bin_intervals_[j]
+        bins = list(est.bin_intervals_)
+        for it, row in zip(items, np.asarray(out)):
+            want = [sum(1 for x in it if b.left < x <= b.right) for b in bins]
+            if list(row) != want:
+                v.append(viol("column-meaning:histogram", "item %s counted as %s, per-interval counts are %s (bins %s)" % (it, list(row), want, bins)))
+                break
     return res(v, nt=(case["spec"], case["cfg"], case["train"], tuple(case["batch"])), out=spec.name)
 
 
